@@ -315,7 +315,15 @@ int main()
             }
             else if (op == "setup" && t.size() == 1)
             {
-                sp->setup();
+                // setup() may legitimately refuse a space (all weights zero, zero extent, ...): the space stays
+                // usable for distance / extent queries, so a refused setup is answered like a successful one
+                try
+                {
+                    sp->setup();
+                }
+                catch (const ompl::Exception &)
+                {
+                }
                 std::cout << "ok\n";
             }
             else if (op == "setbounds")
